@@ -62,7 +62,7 @@
             assert(vars_view(variables@) =~= Map::<String, VarSpec>::empty());
         }
 //@ loop 0 header
-[depth=0] while let Some(segment) = all_segments.next()
+[depth=0] while let
 //@ loop 0 invariant
             invariant
                 segments_of(path) is Ok, // @inv_path_decoded
@@ -82,7 +82,7 @@
                 }
             }
 //@ loop 1 header
-[depth=1] while let Some(segment) = all_segments.next()
+[depth=1] while let
 //@ loop 1 invariant
                         invariant
                             rest@ + IteratorSpec::remaining(&all_segments) == seq![seg0] + rem_after, // @inv_wildcard_collects_every_remaining_segment
@@ -99,7 +99,7 @@
 //@ after "to_uppercase_();" 0
         proof { ax_string_ext(methodname, upper_string(method_text(*method))); }
 //@ loop 2 header
-[depth=0] for (allowed, handlers) in
+[depth=0] for
 //@ loop_iter 2 it
 //@ loop 2 invariant
                 invariant
